@@ -42,7 +42,7 @@ def run(shard, rec, tier, seed):
             rng = random.Random("C19-%d-%d" % (seed, ti))
             for name, decl, path in spec.classes():
                 vg = ValueGen(t.interp, rng, "nd")
-                for j in range(VALUES[tier]):
+                for j in range(VALUES[tier] * (4 if ti < 0 else 1)):  # the hand-written tree gets four times the values
                     one(rec, t, ti, name, vg.message(name), j, rng)
 
 
